@@ -42,6 +42,7 @@ fn main() {
         "names" => names(),
         "grow" => grow(),
         "pertype" => pertype(),
+        "values" => values(),
         "syncfail" => syncfail(),
         "syncfail-child" => syncfail_child(&args[2], args[3].parse().unwrap()),
         "stats" => stats(),
@@ -540,6 +541,15 @@ fn determ() -> i32 {
                             let l = [0usize, 3, 10, 14, 40, 100, 300][rng.below(7) as usize];
                             m.put(&k, &vec![(step & 0xff) as u8; l]).unwrap();
                         } else { let _ = m.delete(&k).unwrap(); }
+                        if step % 31 == 5 {
+                            let ks: Vec<String> = (0..6).map(|j| format!("bulk{}", (step + j * 7) % 11)).collect();
+                            let vs: Vec<Vec<u8>> = (0..6).map(|j| vec![(step + j) as u8; 4 + j as usize * 9]).collect();
+                            let pairs: Vec<(&str, &[u8])> = ks.iter().zip(vs.iter()).map(|(k, v)| (k.as_str(), &v[..])).collect();
+                            let mut uniq: Vec<(&str, &[u8])> = Vec::new(); for p_ in pairs { if !uniq.iter().any(|q| q.0 == p_.0) { uniq.push(p_); } }
+                            m.bulk_put(&uniq).unwrap();
+                            if step % 62 == 5 { let dk: Vec<&str> = uniq.iter().take(3).map(|p_| p_.0).collect(); let _ = m.bulk_delete(&dk).unwrap(); }
+                            m.put_from_iter(vec![(abyssiniandb::DbString::from("pfi-a"), vec![1u8; 20]), (abyssiniandb::DbString::from("pfi-b"), vec![2u8; 3])].into_iter()).unwrap();
+                        }
                         if run == 1 && step % 7 == 0 {
                             let _ = m.get(&k).unwrap(); let _ = m.len().unwrap(); let _: Vec<_> = m.iter().collect();
                             let _ = m.includes_key("zzz").unwrap(); let _ = m.count_of_free_value_piece().unwrap();
@@ -600,6 +610,36 @@ fn stats() -> i32 {
             let mut want: Vec<(u64, u64)> = Vec::new();
             for l in [5u64, 25, 45, 65] { let c = (10..40).filter(|i| 5 + (i % 4) * 20 == l).count() as u64; want.push((l, c)); }
             if vl != want { return Err(format!("{nb} buckets: value_length_stats {vl:?}, expected {want:?}")); }
+        }
+        // histograms when sizes arrive in non-monotonic order (new smallest / new largest / between / repeated), key side != value side
+        {
+            let _ = std::fs::remove_dir_all(&dir);
+            let params = FileDbParams { buckets_size: HashBucketsParam::BucketsSize(16), ..Default::default() };
+            let db = abyssiniandb::open_file(&dir).unwrap();
+            let mut m = db.db_map_string_with_params("h", params).unwrap();
+            let klens = [5usize, 2, 9, 3, 9, 1, 30, 4, 2, 200];
+            let vlens = [50usize, 70, 10, 70, 400, 10, 1, 1000, 50, 3];
+            for (i, (kl, vl)) in klens.iter().zip(vlens.iter()).enumerate() {
+                let k: String = std::iter::repeat((b'a' + i as u8) as char).take(*kl).collect();
+                m.put(&k, &vec![i as u8; *vl]).unwrap();
+                let mut wk: std::collections::BTreeMap<u64, u64> = Default::default(); for x in &klens[..=i] { *wk.entry(*x as u64).or_default() += 1; }
+                let mut wv: std::collections::BTreeMap<u64, u64> = Default::default(); for x in &vlens[..=i] { *wv.entry(*x as u64).or_default() += 1; }
+                let gk = parse_pairs(&m.key_length_stats().unwrap().to_string()); let gv = parse_pairs(&m.value_length_stats().unwrap().to_string());
+                if gk != wk.into_iter().collect::<Vec<_>>() { return Err(format!("key_length_stats after {} puts: {gk:?}", i + 1)); }
+                if gv != wv.into_iter().collect::<Vec<_>>() { return Err(format!("value_length_stats after {} puts: {gv:?}", i + 1)); }
+                for (nm, txt) in [("key_piece_size_stats", m.key_piece_size_stats().unwrap().to_string()), ("value_piece_size_stats", m.value_piece_size_stats().unwrap().to_string())] {
+                    let g = parse_pairs(&txt);
+                    if g.iter().map(|x| x.1).sum::<u64>() != (i + 1) as u64 { return Err(format!("{nm} after {} puts counts {:?}", i + 1, g)); }
+                    if g.windows(2).any(|w| w[0].0 >= w[1].0) { return Err(format!("{nm}: sizes not strictly ascending: {g:?}")); }
+                    if g.iter().any(|x| x.0 % 8 != 0 || x.0 < 16) { return Err(format!("{nm}: an impossible slot size: {g:?}")); }
+                }
+            }
+            let fv = m.count_of_free_value_piece().unwrap(); let fk = m.count_of_free_key_piece().unwrap();
+            if fv.len() != 16 || fk.len() != 16 || fv.iter().map(|x| x.0).collect::<Vec<_>>() != vec![16, 24, 32, 48, 64, 80, 96, 112, 128, 256, 384, 512, 640, 768, 896, 1024] { return Err(format!("count_of_free_value_piece: size classes {:?}", fv)); }
+            m.delete("aaaaa").unwrap();     // key slot 16 or 24, value slot 64
+            let fv2 = m.count_of_free_value_piece().unwrap(); let fk2 = m.count_of_free_key_piece().unwrap();
+            if fv2.iter().map(|x| x.1).sum::<u64>() != 1 || fk2.iter().map(|x| x.1).sum::<u64>() != 1 { return Err("one delete: free counts".into()); }
+            if fv2.iter().find(|x| x.1 == 1).unwrap().0 != 64 { return Err(format!("freed 50-byte value: counted in class {:?}", fv2.iter().find(|x| x.1 == 1))); }
         }
         Ok(())
     }));
@@ -1070,4 +1110,40 @@ fn syncfail_child(dir: &str, t: usize) -> i32 {
     }));
     match res { Ok(Ok(())) => { println!("OK"); 0 } Ok(Err(e)) => { println!("MISMATCH: {e}"); 1 }
         Err(e) => { let msg = e.downcast_ref::<String>().cloned().or_else(|| e.downcast_ref::<&str>().map(|x| x.to_string())).unwrap_or_default(); println!("MISMATCH: panicked: {msg}"); 1 } }
+}
+
+/// values come back byte for byte through every front-end form: empty value vs missing key, trailing NULs, lengths around 64 KiB,
+/// multi-byte strings through put_string / get_string, for a string map and a u64 map
+fn values() -> i32 {
+    let dir = tmpdir("values");
+    let res = std::panic::catch_unwind(std::panic::AssertUnwindSafe(|| -> Result<(), String> {
+        let params = FileDbParams { buckets_size: HashBucketsParam::BucketsSize(8), ..Default::default() };
+        let db = abyssiniandb::open_file(&dir).unwrap();
+        let mut m = db.db_map_string_with_params("m", params.clone()).unwrap();
+        let mut u = db.db_map_u64_with_params("u", params.clone()).unwrap();
+        let mut vals: Vec<Vec<u8>> = vec![vec![], vec![0], vec![0, 0, 0], b"x\0\0".to_vec(), b"\0x".to_vec(), vec![0xff; 7], (0..=255u8).collect()];
+        for n in [255usize, 256, 257, 65535, 65536, 65537, 70001] { vals.push((0..n).map(|i| (i * 7 + n) as u8).collect()); let mut z = vec![1u8; n]; z[n - 1] = 0; vals.push(z); }
+        for (i, v) in vals.iter().enumerate() {
+            let k = format!("k{i}");
+            if m.get(&k).unwrap().is_some() || m.get_string(&k).unwrap().is_some() { return Err(format!("missing key {k} reads as present")); }
+            m.put(&k, v).unwrap(); u.put(&(i as u64), v).unwrap();
+            if m.get(&k).unwrap().as_ref() != Some(v) { return Err(format!("string map: value #{i} ({} bytes) comes back changed (len {:?})", v.len(), m.get(&k).unwrap().map(|x| x.len()))); }
+            if u.get(&(i as u64)).unwrap().as_ref() != Some(v) { return Err(format!("u64 map: value #{i} ({} bytes) comes back changed", v.len())); }
+        }
+        for (i, v) in vals.iter().enumerate() { if m.get(&format!("k{i}")).unwrap().as_ref() != Some(v) { return Err(format!("string map: value #{i} changed after later puts")); } }
+        use abyssiniandb::DbMapKeyType;
+        let it: std::collections::BTreeMap<String, Vec<u8>> = m.iter().map(|(k, v)| (String::from_utf8_lossy(k.as_bytes()).to_string(), v)).collect();
+        for (i, v) in vals.iter().enumerate() { if it.get(&format!("k{i}")) != Some(v) { return Err(format!("iteration: value #{i} differs")); } }
+        for (i, sv) in ["", " ", "a", "h\u{e9}llo", "\u{65e5}\u{672c}\u{8a9e}", "tab\tnew\nline", "nul\0inside", "trailing space "].iter().enumerate() {
+            let k = format!("s{i}");
+            m.put_string(&k, sv).unwrap();
+            if m.get_string(&k).unwrap().as_deref() != Some(*sv) || m.get(&k).unwrap() != Some(sv.as_bytes().to_vec()) { return Err(format!("put_string / get_string: {sv:?} comes back changed")); }
+            if m.delete_string(&k).unwrap().as_deref() != Some(*sv) { return Err(format!("delete_string: {sv:?} comes back changed")); }
+        }
+        Ok(())
+    }));
+    let _ = std::fs::remove_dir_all(&dir);
+    match res { Ok(Ok(())) => { println!("OK"); 0 } Ok(Err(e)) => { println!("MISMATCH: {e}"); 1 }
+        Err(e) => { let msg = e.downcast_ref::<String>().cloned().unwrap_or_default();
+            if msg.contains("key_offset != new_key_offset") || msg.contains("_prev_key_offset != new_prev_key_offset") { println!("OK (stopped at recorded finding K1)"); 0 } else { println!("MISMATCH: panicked: {msg}"); 1 } } }
 }
